@@ -12,7 +12,7 @@ cd "$WT"
 res() { echo "RESULT $NAME build=$1 suite=$2 demo_with=$3 demo_without=$4"; }
 if ! git apply "$PATCH"; then res patchfail - - -; git -C /repo worktree remove --force "$WT"; exit 1; fi
 if GOPROXY=off go build ./... 2>/tmp/sv/$NAME.build.log; then B=ok; else B=FAIL; fi
-SUITE=$(python3 /verif/tools/baseline_check.py "$WT" | grep stable_pass | tail -1)
+python3 /verif/tools/baseline_check.py "$WT" > /tmp/sv/$NAME.suite.log 2>&1; SUITE=$(grep stable_pass /tmp/sv/$NAME.suite.log | tail -1)
 cp "$DEMO" "$DEST"
 if [ -n "${EXTRA_DEMO:-}" ]; then cp "$EXTRA_DEMO" "$(dirname "$DEST")/zz_extra_helper_test.go"; fi
 timeout 600 env GOPROXY=off go test -vet=off -count=1 -run "$RUN" "$@" "$PKG" > /tmp/sv/$NAME.with.log 2>&1; W=$?
